@@ -7,6 +7,8 @@ names="$@"; [ -z "$names" ] && names=$(ls seeded | grep -E '^C[0-9]+-m[0-9]+$')
 out=/verif/seeded/MATRIX.tsv
 for n in $names; do
   id=${n%%-*}
+  # a change that breaks another property than the one it was written for (see DESIGN 12.10)
+  [ -f /verif/seeded/$n/DETECTED_BY ] && id=$(cat /verif/seeded/$n/DETECTED_BY)
   p=/verif/seeded/$n/patch.diff
   cd /repo
   if ! git diff --quiet; then echo "/repo dirty" >&2; exit 2; fi
